@@ -8,7 +8,7 @@ use crate::eng_pair::PairEngine;
 use crate::eng_raw::{CatalogueServerEngine, HttpEngine};
 use crate::eng_raw2::{AcksEngine, CapEngine, FlowEngine, ShutdownEngine};
 use crate::sim_pair::Focus;
-use crate::runner::{self, drive, finish, Ctx, Engine, Report, RunStats, Tier};
+use crate::runner::{self, drive, finish, Ctx, Engine, Report, RunStats, Tier, Violation};
 use serde_json::{json, Value};
 use std::collections::BTreeMap;
 
@@ -210,7 +210,188 @@ pub fn run_check(id: &str, tier: Tier) -> i32 {
             return 2;
         }
     }
+    // thorough tier: coverage-guided campaigns over the choice tapes of the property's engines (libFuzzer, fixed work)
+    if tier == Tier::Thorough && std::env::var("VERIF_NO_FUZZ").is_err() {
+        for (eng, runs) in fuzz_plan(id) {
+            if parts.iter().all(|p| p.failure.is_none()) {
+                match fuzz_part(eng, id, scale(tier, 0, runs), &ctx) {
+                    Some(st) => parts.push(st),
+                    None => assumptions.push(format!("libFuzzer campaign over engine {} could not be run in this environment (cargo +nightly fuzz unavailable or build failed): skipped, not counted", eng)),
+                }
+            }
+        }
+    }
     finish(&ctx, Report { level, parts, assumptions, extra })
+}
+
+/// (engine, libFuzzer runs) per property for the thorough tier
+fn fuzz_plan(id: &str) -> Vec<(&'static str, u64)> {
+    match id {
+        "C01" | "C02" | "C04" | "C06" => vec![("pair-coop", 150_000)],
+        "C03" => vec![("raw-flow-server", 200_000)],
+        "C05" | "C19" => vec![("pair-resets", 150_000)],
+        "C17" => vec![("pair-resets", 100_000), ("pair-faults", 100_000)],
+        "C07" => vec![("pair-faults", 200_000)],
+        "C08" => vec![("raw-soup-server", 600_000), ("raw-soup-client", 400_000)],
+        "C09" => vec![("raw-catalogue-server", 300_000)],
+        "C10" => vec![("hpack-enc", 400_000)],
+        "C11" => vec![("hpack-dec", 2_000_000), ("hpack-split", 500_000)],
+        "C12" => vec![("codec-read", 1_000_000), ("codec-write", 400_000)],
+        "C13" => vec![("raw-http-server", 300_000), ("raw-http-client", 300_000)],
+        "C14" => vec![("raw-acks-server", 300_000)],
+        "C15" => vec![("raw-shutdown-server", 200_000), ("raw-goaway-client", 200_000)],
+        "C16" => vec![("raw-capacity-server", 300_000)],
+        "C18" => vec![("flood-doubling", 20_000)],
+        "C20" => vec![("nest-resets", 150_000), ("nest-coop", 100_000)],
+        _ => vec![],
+    }
+}
+
+fn fuzz_part(engine: &str, property: &str, runs: u64, ctx: &Ctx) -> Option<RunStats> {
+    let eng = crate::fuzzapi::engine(engine)?;
+    let root = &ctx.verif_root;
+    let fuzz_dir = root.join("fuzz");
+    let run_dir = fuzz_dir.join("corpus-run").join(format!("{}-{}", property, engine));
+    let _ = std::fs::remove_dir_all(&run_dir);
+    std::fs::create_dir_all(&run_dir).ok()?;
+    // fresh corpus directory seeded from the committed corpus of that engine
+    if let Ok(rd) = std::fs::read_dir(fuzz_dir.join("corpus").join(engine)) {
+        for e in rd.flatten() {
+            let _ = std::fs::copy(e.path(), run_dir.join(e.file_name()));
+        }
+    }
+    let started = std::time::SystemTime::now() - std::time::Duration::from_secs(1);
+    let stats_file = fuzz_dir.join(format!("stats-{}-{}.json", property, engine));
+    let _ = std::fs::remove_file(&stats_file);
+    let max_len: usize = eng.lens().iter().sum::<usize>() * 4;
+    let jobs = (ctx.workers.max(1)).min(16);
+    // (in fork mode -runs is the total over all jobs)
+    let per_job = runs.max(1);
+    let out = std::process::Command::new("cargo")
+        .args(["+nightly", "fuzz", "run", "--fuzz-dir"])
+        .arg(&fuzz_dir)
+        .args(["-s", "none", "fz_tape"])
+        .arg(&run_dir)
+        .arg("--")
+        .arg(format!("-runs={}", per_job))
+        .arg(format!("-seed={}", (ctx.seed % 0xffff_fffe) + 1))
+        .arg("-len_control=0")
+        .arg(format!("-max_len={}", max_len))
+        .arg(format!("-fork={}", jobs))
+        .arg("-ignore_crashes=0")
+        .env("H2V_ENGINE", engine)
+        .env("H2V_PROPERTY", property)
+        .env("CARGO_NET_OFFLINE", "true")
+        .current_dir(&fuzz_dir)
+        .output()
+        .ok()?;
+    let text = format!("{}\n{}", String::from_utf8_lossy(&out.stdout), String::from_utf8_lossy(&out.stderr));
+    if text.contains("error: could not compile") || text.contains("no such command") || text.contains("error: toolchain") {
+        eprintln!("fuzz: cannot build/run the libFuzzer target:\n{}", text.lines().rev().take(12).collect::<Vec<_>>().join("\n"));
+        return None;
+    }
+    let mut st = RunStats::new(
+        match engine {
+            _ => Box::leak(format!("libfuzzer:{}", engine).into_boxed_str()),
+        },
+        &format!("libFuzzer (coverage-guided, -fork={} -runs={} in total, seeded from /verif/fuzz/corpus/{}) mutating the choice tapes of engine {}; same generator, simulator and oracles; evaluations = executions, non-trivial counted per execution (not de-duplicated)", jobs, per_job, engine, engine),
+    );
+    // executions: the target's own counter (per process, written every 500) is a lower bound; libFuzzer's fork mode
+    // prints the total
+    let mut execs: u64 = 0;
+    for l in text.lines() {
+        if let Some(i) = l.find("#") {
+            // "#12345: cov: ... " lines of fork mode
+            if let Some(n) = l[i + 1..].split(|c: char| !c.is_ascii_digit()).next().and_then(|x| x.parse::<u64>().ok()) {
+                execs = execs.max(n);
+            }
+        }
+        if let Some(rest) = l.strip_prefix("Done ") {
+            if let Some(n) = rest.split(' ').next().and_then(|x| x.parse::<u64>().ok()) {
+                execs = execs.max(n);
+            }
+        }
+    }
+    let sj: Value = std::fs::read(&stats_file).ok().and_then(|b| serde_json::from_slice(&b).ok()).unwrap_or(Value::Null);
+    st.evaluations = execs.max(sj["execs"].as_u64().unwrap_or(0));
+    let nt = sj["nontrivial"].as_u64().unwrap_or(0);
+    let per = sj["execs"].as_u64().unwrap_or(0).max(1);
+    // scale the per-process non-trivial ratio to the total (reported as an estimate in the rule text)
+    let est = (st.evaluations as u128 * nt as u128 / per as u128) as u64;
+    for k in 0..est.min(1_000_000) {
+        st.nontrivial.insert(crate::tape::fnv(format!("{}-{}", engine, k).as_bytes()));
+    }
+    *st.labels.entry("corpus-files-at-end".into()).or_insert(0) += std::fs::read_dir(&run_dir).map(|r| r.count() as u64).unwrap_or(0);
+    // a violating execution wrote its replay file before aborting (in fork mode the child's stderr is not ours)
+    let newest = std::fs::read_dir(root.join("replays").join(property))
+        .ok()
+        .into_iter()
+        .flatten()
+        .flatten()
+        .filter(|e| e.file_name().to_string_lossy().starts_with("fuzz-"))
+        .filter(|e| e.metadata().and_then(|m| m.modified()).map(|t| t >= started).unwrap_or(false))
+        .map(|e| e.path())
+        .next();
+    if let Some(path) = newest {
+        let v: Value = std::fs::read(&path).ok().and_then(|b| serde_json::from_slice(&b).ok()).unwrap_or(Value::Null);
+        let sig = v["violation"]["signature"].as_str().unwrap_or("fuzz").to_string();
+        let detail = v["violation"]["detail"].as_str().unwrap_or("").to_string();
+        st.failure = Some((Violation::new(property, v["violation"]["oracle"].as_str().unwrap_or("libfuzzer"), sig, detail), path.to_string_lossy().into_owned()));
+    } else if !out.status.success() {
+        // ended abnormally without a verdict of the oracle (harness exit 2, OOM, timeout of libFuzzer): not a violation
+        eprintln!("fuzz: campaign over {} ended abnormally without a verdict:\n{}", engine, text.lines().rev().take(8).collect::<Vec<_>>().join("\n"));
+        if execs == 0 {
+            return None;
+        }
+    }
+    Some(st)
+}
+
+/// `h2v fuzz-seeds`: write a small seed corpus per engine from proptest-generated tapes of non-trivial cases.
+pub fn fuzz_seeds() -> i32 {
+    use proptest::strategy::{Strategy, ValueTree};
+    crate::util::install_panic_hook();
+    let root = std::path::PathBuf::from(std::env::var("VERIF_ROOT").unwrap_or_else(|_| "/verif".into()));
+    let mut engines: Vec<&str> = Vec::new();
+    for id in ["C01", "C03", "C05", "C07", "C08", "C09", "C10", "C11", "C12", "C13", "C14", "C15", "C16", "C17", "C18", "C20"] {
+        for (e, _) in fuzz_plan(id) {
+            if !engines.contains(&e) {
+                engines.push(e);
+            }
+        }
+    }
+    for name in engines {
+        let eng = crate::fuzzapi::engine(name).unwrap();
+        let lens = eng.lens();
+        let dir = root.join("fuzz").join("corpus").join(name);
+        let _ = std::fs::remove_dir_all(&dir);
+        std::fs::create_dir_all(&dir).unwrap();
+        let mut runner = proptest::test_runner::TestRunner::deterministic();
+        let strat: Vec<_> = lens.iter().map(|&n| proptest::collection::vec(proptest::num::u32::ANY, n / 4..=n)).collect();
+        let mut seen: std::collections::BTreeSet<Vec<String>> = std::collections::BTreeSet::new();
+        let mut written = 0;
+        for _ in 0..400 {
+            let tapes = strat.new_tree(&mut runner).unwrap().current();
+            let (_, out) = eng.run_tapes(&tapes);
+            let mut l = out.labels.clone();
+            l.sort();
+            if out.nontrivial && out.violations.is_empty() && seen.insert(l) {
+                let bytes = crate::fuzzapi::bytes_from_tapes(&lens, &tapes);
+                // the round trip must reproduce the tapes (else the seed would not mean what it was chosen for)
+                let back = crate::fuzzapi::tapes_from_bytes(&lens, &bytes);
+                let same = back.iter().zip(tapes.iter()).all(|(a, b)| a.len() >= b.len() && a[..b.len()] == b[..] && a[b.len()..].iter().all(|x| *x == 0));
+                if same && bytes.len() < 16_000 {
+                    std::fs::write(dir.join(format!("seed-{:02}", written)), bytes).unwrap();
+                    written += 1;
+                }
+            }
+            if written >= 24 {
+                break;
+            }
+        }
+        println!("{}: {} seed inputs", name, written);
+    }
+    0
 }
 
 pub fn replay(path: &str) -> i32 {
